@@ -8,8 +8,10 @@
      P2  ActionHold keeps the current event and is returned only by an action that holds nothing;
      P3  an action that still holds an event never lets another one through (Pass / Break);
      P4  ActionBreak is returned at action a only when no later action holds an event
-         (file.d's only Break is split, which first sends a time-out to every busy action).
-   P1-P4 are guards of [pstep], so every real trace is checked against them.  No proofs here. *)
+         (file.d's only Break is split, which first sends a time-out to every busy action);
+     P5  Spawn (called from inside Do of action a) enters its events to the right of a and never past a
+         holder: a child at an index > a, a time-out at a busy index, nothing held left of that index.
+   P1-P5 are guards of [pstep], so every real trace is checked against them.  No proofs here. *)
 From Verif Require Import Base.Sx.
 
 Inductive pres := RPass | RCollapse | RDiscard | RHold | RBreak.   (* pipeline.ActionResult values 0..4 *)
@@ -121,7 +123,12 @@ Definition pstep (s : pst) (l : plabel) : option pst :=
       | f :: r =>
           match fph f with
           | InDo =>
-              if (pkind e =? 1) || ((pkind e =? 3) && match held_at (held s) idx with Some _ => true | None => false end)
+              (* P5: Spawn enters events to the right of the spawning action (children start at parent.action+1, a
+                 time-out at a busy action) and never past a holder: nothing is held left of idx (the spawning action
+                 itself holds nothing; Spawn's loop over busyActions is ascending and a time-out frees its action) *)
+              if (((pkind e =? 1) && (fidx f <? idx)) ||
+                  ((pkind e =? 3) && match held_at (held s) idx with Some _ => true | None => false end))
+                 && negb (existsb (fun p => fst p <? idx) (held s))
               then Some (set_stack s ((if idx <? nact s then {| fev := e; fidx := idx; fph := BeforeDo |}
                                        else {| fev := e; fidx := idx - 1; fph := MustOut |}) :: f :: r))
               else None
